@@ -210,7 +210,7 @@ func Run(opt Options) int {
 		patterns = append(patterns, "./"+s.hp.dir)
 	}
 	cfg := interp.Config{
-		SolverCmd: solverCmd(), QueryTimeout: 10000, MaxSteps: 3_000_000, MaxPaths: 60000, MaxSymSize: 16,
+		SolverCmd: solverCmd(), QueryTimeout: 10000, MaxSteps: 3_000_000, MaxPaths: 250000, MaxSymSize: 16,
 		Workers: opt.Workers, Verbose: opt.Verbose, Seed: opt.Seed, Thorough: thorough, DumpSMT: opt.DumpSMT, MaxPreemptions: 2,
 	}
 	if thorough {
